@@ -9,7 +9,7 @@ from . import common, prims
 
 PROPERTY = "C02"
 LEVEL = "other"
-CONFIGS_QUICK = ["std"]
+CONFIGS_QUICK = ["std", "alloc"]
 CONFIGS_THOROUGH = ["std", "alloc", "core"]
 EXPLANATION = (
     "Typestate analysis of the slot invariant (Pending <=> child live & output uninit; Ready <=> child dropped & output init; "
